@@ -153,6 +153,23 @@ func runC04(e *core.Env) error {
 				if int(w.head())-d >= 1 {
 					w.reorg(d, d+rr.Intn(2))
 				}
+			case op == 5 && i > 4:
+				// PruneTask (main runs it every ten minutes): old positions go, but every pair keeps its
+				// newest one — however far behind the other pairs of its source it is
+				tops := map[string]uint64{}
+				for _, o := range tasks {
+					tops[o.id] = w.taskTop(o)
+				}
+				n := 1 + rr.Intn(2)
+				w.prune(n)
+				verdict := "ok"
+				for _, o := range tasks {
+					if got := w.taskTop(o); got != tops[o.id] {
+						verdict = fmt.Sprintf("pruning to %d positions per pair moved the newest position of %s/%s from %d to %d", n, o.src, o.ig, tops[o.id], got)
+					}
+				}
+				e.Add(core.Case{Impl: verdict, Spec: "ok", Key: fmt.Sprintf("c04-prune %d %d", h, i), Nontrivial: true, Tags: []string{"prune-keeps-every-pairs-newest-position"},
+					Detail: map[string]any{"history": strings.Split(strings.Join(w.ops, "\n"), "\n")}})
 			case op == 4:
 				// restart: all in-memory state discarded
 				w.newPool()
@@ -499,6 +516,80 @@ func runC05(e *core.Env) error {
 					}
 				}
 				e.Add(core.Case{Impl: verdict2, Spec: "ok", Key: "c05-file-and-dashboard", Nontrivial: true, Tags: []string{"file-declaration-wins"}})
+				// the dependent runs on a source on which the referenced integration does NOT run (or the referenced
+				// integration is disabled): "until all of them have recorded progress it does nothing" — the
+				// dependency stays, the dependent's task on that source records nothing
+				for vi, variant := range []string{"referenced-not-on-that-source", "referenced-disabled"} {
+					nodeX := simnode.NewNode(transferChain(8, uint64(40+vi)))
+					pg3 := fakepg.New()
+					url3, _ := pg3.Start()
+					pool3, perr := pgxpool.New(w.ctx, url3)
+					if perr != nil {
+						nodeX.Close()
+						pg3.Close()
+						continue
+					}
+					srcs := []config.Source{{Name: "src1", ChainID: 7, URLs: []string{nodeX.URL()}, PollDuration: 3 * time.Millisecond, BatchSize: 2},
+						{Name: "src2", ChainID: 8, URLs: []string{nodeX.URL()}, PollDuration: 3 * time.Millisecond, BatchSize: 2}}
+					conf3 := config.Root{Sources: srcs, Integrations: []config.Integration{
+						transferIG("iga", "ta", []string{"block_time"}, func(ci *config.Integration) {
+							ci.Sources = []config.Source{{Name: "src1", Start: 1}}
+							if variant == "referenced-disabled" {
+								ci.Sources = []config.Source{{Name: "src1", Start: 1}, {Name: "src2", Start: 1}}
+								ci.Enabled = false
+							}
+						}),
+						transferIG("igb", "tb", []string{"block_time", "log_addr"}, func(ci *config.Integration) {
+							ci.Sources = []config.Source{{Name: "src1", Start: 1}, {Name: "src2", Start: 1}}
+							for j := range ci.Block {
+								if ci.Block[j].Name == "log_addr" {
+									ci.Block[j].Filter = dig.Filter{Op: "contains", Ref: dig.Ref{Integration: "iga", Column: "ev_from"}}
+								}
+							}
+						})}}
+					verdict3 := "ok"
+					if verr := config.ValidateFix(&conf3); verr != nil {
+						verdict3 = "rejected: " + verr.Error()
+					} else {
+						conn, _ := pool3.Acquire(w.ctx)
+						config.Migrate(w.ctx, conn, conf3)
+						conn.Release()
+						ts, lerr := shovel.VerifLoadTasks(w.ctx, pool3, conf3)
+						if lerr != nil {
+							verdict3 = "load: " + lerr.Error()
+						}
+						for _, t := range ts {
+							if t.IG == "igb" && strings.Join(t.Dependencies, ",") != "iga" {
+								verdict3 = fmt.Sprintf("igb on %s references iga but runs with dependencies %v", t.Src, t.Dependencies)
+							}
+						}
+						// and the program's own loop: the dependent must not record anything where iga records nothing
+						mgr := shovel.NewManager(w.ctx, pool3, conf3)
+						go func() {
+							for {
+								mgr.Updates()
+							}
+						}()
+						ec := make(chan error)
+						go mgr.Run(ec)
+						if err := <-ec; err == nil {
+							time.Sleep(250 * time.Millisecond)
+							has := map[string]bool{}
+							for _, r := range pg3.Rows("shovel.task_updates") {
+								has[fmt.Sprint(r["src_name"])+"/"+fmt.Sprint(r["ig_name"])] = true
+							}
+							for _, s := range []string{"src1", "src2"} {
+								if has[s+"/igb"] && !has[s+"/iga"] {
+									verdict3 = fmt.Sprintf("igb recorded progress on %s although the integration it references has recorded none there", s)
+								}
+							}
+						}
+					}
+					e.Add(core.Case{Impl: verdict3, Spec: "ok", Key: "c05-per-source " + variant, Nontrivial: true, Tags: []string{"dependency-per-source", variant}})
+					nodeX.Close()
+					go pool3.Close()
+					pg3.Close()
+				}
 				go pool2.Close()
 			}
 			pg2.Close()
@@ -699,6 +790,7 @@ func cfgDepsCases(e *core.Env) {
 
 func runC06(e *core.Env) error {
 	r := e.Rand
+	dashboardRange(e, "c06")
 	type cfg struct{ start, stop uint64 }
 	var grid []cfg
 	for _, st := range []uint64{0, 1, 3, 6, 9} {
